@@ -84,7 +84,14 @@ def start_value(kind, dom, rng, which=0):
     if kind == 'intbox':
         return rng.randint(math.ceil(dom[0]), math.floor(dom[1]))
     if kind == 'sphere':
-        return rng.uniform(0.1, TWO_PI - 0.1) if which == 0 else rng.uniform(0.2, math.pi - 0.2)
+        # dom (optional): (radec, degs) -- the conventions the proposal was built with
+        radec, degs = dom if dom else (False, False)
+        v = rng.uniform(0.1, TWO_PI - 0.1) if which == 0 else rng.uniform(0.2, math.pi - 0.2)
+        if which == 1 and radec:
+            v = v - math.pi / 2
+        if degs:
+            v = v * 180.0 / math.pi
+        return v
     raise ValueError(kind)
 
 
@@ -158,6 +165,10 @@ def make(family, params, doms, rng, jump_interval=1, window=None, start_step=1, 
         return cls(params, bnds, cov=_spd(n, rng), **kw, **nonadaptive_dur)
     if f == 'adaptive_bounded_eigenvector':
         return cls(params, bnds, T, cov0=_spd(n, rng), start_step=start_step, **kw)
+    if f in ('isotropic_solid_angle', 'adaptive_isotropic_solid_angle'):
+        flags = (doms or {}).get(params[0])
+        if flags:
+            kw = dict(kw, radec=bool(flags[0]), degs=bool(flags[1]))
     if f == 'isotropic_solid_angle':
         return cls(params[0], params[1], kappa=rng.uniform(2, 30), **kw, **nonadaptive_dur)
     if f == 'adaptive_isotropic_solid_angle':
